@@ -42,8 +42,10 @@ struct Model {
     int opidx = 0;
     struct PRead { int op, rank, file, var; };
     std::vector<PRead> pending_reads;       // reads not yet ordered (by a barrier) before later writes of other ranks
+    std::map<int, int> snap_state;          // file slot -> 1: image snapshot taken after redef, 2: aborted since (compare allowed)
+    std::vector<std::string> absent;        // paths that must not exist (aborted creates, deletes)
     std::vector<Op> *cur_ops = nullptr;   // program being annotated (WAIT fills expectations into the posting ops)
-    void init(int np, int nslots) { nprocs = np; files.assign(nslots, MFile()); disk.clear(); opidx = 0; pending_reads.clear(); }
+    void init(int np, int nslots) { nprocs = np; files.assign(nslots, MFile()); disk.clear(); opidx = 0; pending_reads.clear(); snap_state.clear(); absent.clear(); }
 };
 
 // type helpers
